@@ -1474,7 +1474,12 @@ def blob_pick_outside_refs(fns):
     return [a]
 
 
+import xspecs
+
 SPECS = {
+    "O19.2": [xspecs.fifo_choose],
+    "O17.3": [xspecs.filter_adapter],
+    "O15.4": [xspecs.clear_resets],
     "O20.5": [blob_pick_outside_refs],
     "O2.3b": [version_seqno],
     "O18.3": [seqno_marks],
@@ -1497,3 +1502,253 @@ SPECS = {
     "O14.2": [ingestion_finish],
     "O20.3": [recover_levels],
 }
+
+
+# ---------------------------------------------------------------------------------------------
+# C09 / C19 / C20 O9.5: Version::with_dropped forgets the fragmentation of blob files it removes from the value log
+# ---------------------------------------------------------------------------------------------
+
+def with_dropped_prunes_gc_stats(fns):
+    """Invariant of every version: the fragmentation map has entries only for blob files of the value log.
+    BlobTree::open restarts the blob file id counter at max(live ids) + 1, so ids of removed blob files are
+    handed out again after a reopen; a stale entry would be inherited by an unrelated blob file, which
+    `prune_dead` then removes although live tables point into it."""
+    fn = mir.find(fns, r"src/version/mod\.rs[^>]*>::with_dropped\(")
+    a = Automaton(fn, "O9.5 no blob file inherits stale fragmentation: with_dropped prunes the map, or reopen never re-issues an id the map knows")
+    pd = calls(fn, r"BlobFileList::prune_dead$") + calls(fn, r"BlobFileList::remove$")
+    if not pd:
+        raise MirError("with_dropped: no prune_dead / remove of blob files found")
+    pr = calls(fn, r"FragmentationMap::prune$")
+    ok_ret, err_ret = ret_blocks(fn)
+    # (B) alternatively the ids of stale entries are never handed out again: BlobTree::open continues the blob file id
+    # counter after the largest id known to the value log *or the fragmentation map*
+    bo = mir.find(fns, r"src/blob_tree/mod\.rs[^>]*>::open\(")
+    st = one(calls(bo, r"SequenceNumberCounter::set$"), "blob_file_id_counter.set")
+    val = RE_LOCAL.findall(st.args)[-1]
+    ch = _call_chain(bo, val)
+    chains = [b for b in live_blocks(bo) if b.kind == "call" and re.search(r"as Iterator>::chain::<", b.callee)]
+    covers_gc = False
+    if len(chains) == 1 and any(re.search(r"as Iterator>::max$", c) for c in ch) and any("as Iterator>::chain::<" in c for c in ch) \
+            and not any(re.search(NARROW_RE.replace("|min|max|min_by_key|max_by_key", ""), c) for c in ch if not re.search(r"as Iterator>::max$", c)):
+        srcs = []
+        for arg in mir.split_top(chains[0].args):
+            l = RE_LOCAL.search(arg)
+            srcs.append(_call_chain(bo, l.group(0)) if l else [])
+        has_ids = any(any("list_ids" in c for c in sc) for sc in srcs)
+        has_gc = any(any(re.search(r"HashMap::<u64, FragmentationEntry, [^>]*>::keys$", c) for c in sc) and any("Version::gc_stats" in c for c in sc) for sc in srcs)
+        covers_gc = has_ids and has_gc
+    a.var("stale")
+    a.event("call:value_log.prune_dead", [] if covers_gc else [b.idx for b in pd]).on("call:value_log.prune_dead", "stale", True)
+    a.event("call:gc_stats.prune(value_log)", [b.idx for b in pr]).on("call:gc_stats.prune(value_log)", "stale", False)
+    a.event("ret_ok", ok_ret)
+    a.require("ret_ok", "(not {stale})", "with_dropped removes dead blob files from the value log but keeps their fragmentation entries, and BlobTree::open re-issues their ids after a reopen: an unrelated, live blob file inherits the entries and is dropped as dead")
+    # the prune must be against the value log that is stored in the new version, and the pruned map must be the stored one
+    if pr:
+        uf = alias_classes(fn)
+        args = [x.strip() for x in mir.split_top(pr[0].args)]
+        l0, l1 = RE_LOCAL.search(args[0]), RE_LOCAL.search(args[1])
+        pdl = RE_LOCAL.search(mir.split_top(pd[0].args)[0])
+        same_log = l1 is not None and pdl is not None and same_class(uf, l1.group(0), pdl.group(0))
+        a.glue = [("gc_stats.prune is given the value log that prune_dead just shrank", "proved" if same_log else "refuted", 0.0)]
+        a.glue.append(("BlobTree::open continues the id counter after max(value log ids ++ fragmentation map ids)", "proved" if covers_gc else "refuted", 0.0))
+        a.event("call:prune against a different list", [] if same_log else [pr[0].idx])
+        a.require("call:prune against a different list", "false", "the fragmentation map is pruned against a blob file list other than the new value log")
+    if not pr:
+        a.glue = [("BlobTree::open continues the id counter after max(value log ids ++ fragmentation map ids): stale fragmentation entries can never be inherited", "proved" if covers_gc else "refuted", 0.0)]
+    return [a]
+
+
+SPECS["O9.5"] = [with_dropped_prunes_gc_stats]
+
+
+# ---------------------------------------------------------------------------------------------
+# C13 / C14 / C01 O13.3: every write entry point creates the entry type it stands for, at the caller's seqno
+# ---------------------------------------------------------------------------------------------
+
+def _vt_of_operand(fn, blk, arg):
+    """the ValueType variant an operand of a call denotes (constant, or local assigned `ValueType::X` in the same block)"""
+    m = re.search(r"const (?:crate::)?(?:value_type::)?ValueType::(\w+)", arg)
+    if m:
+        return m.group(1)
+    l = RE_LOCAL.search(arg)
+    if not l:
+        return None
+    defs = [st for b in live_blocks(fn) for st in b.stmts if st.startswith(l.group(0) + " = ")]
+    if len(defs) != 1:
+        return None
+    m = re.match(r"^_\d+ = (?:value_type::)?ValueType::(\w+)$", defs[0])
+    return m.group(1) if m else None
+
+
+def value_type_table(fns):
+    table = [
+        # (selector, constructor regex, index of the type argument (None: implied by the constructor), expected type, index of seqno arg, seqno source regex)
+        (r"src/tree/ingest\.rs[^>]*>::write\(", r"InternalValue::from_components::<", 3, "Value", 2, r"^copy \(\(\*_1\)\.\d+: u64\)$"),
+        (r"src/tree/ingest\.rs[^>]*>::write_tombstone\(", r"InternalValue::from_components::<", 3, "Tombstone", 2, r"^copy \(\(\*_1\)\.\d+: u64\)$"),
+        (r"src/tree/ingest\.rs[^>]*>::write_weak_tombstone\(", r"InternalValue::from_components::<", 3, "WeakTombstone", 2, r"^copy \(\(\*_1\)\.\d+: u64\)$"),
+        (r"src/tree/ingest\.rs[^>]*>::write_indirection\(", r"InternalValue::from_components::<", 3, "Indirection", 2, r"^copy \(\(\*_1\)\.\d+: u64\)$"),
+        (r"src/tree/mod\.rs[^>]*>::insert\(", r"InternalValue::from_components::<", 3, "Value", 2, r"^copy _4$"),
+        (r"src/tree/mod\.rs[^>]*>::remove\(", r"InternalValue::new_tombstone::<", None, None, 1, r"^copy _3$"),
+        (r"src/tree/mod\.rs[^>]*>::remove_weak\(", r"InternalValue::new_weak_tombstone::<", None, None, 1, r"^copy _3$"),
+        (r"src/value\.rs[^>]*>::new_tombstone\(", r"InternalKey::new::<", 2, "Tombstone", 1, r"^copy _2$"),
+        (r"src/value\.rs[^>]*>::new_weak_tombstone\(", r"InternalKey::new::<", 2, "WeakTombstone", 1, r"^copy _2$"),
+    ]
+    out = []
+    for sel, ctor, ti, want, si, sre in table:
+        fn = mir.find(fns, sel)
+        short = re.sub(r"\\", "", sel).split(">::")[-1].rstrip("(")
+        where = "ingestion" if "ingest" in sel else ("tree" if "tree/mod" in sel else "InternalValue")
+        a = Automaton(fn, "O13.3 %s::%s creates %s at the caller's seqno" % (where, short, want or ctor.split("::")[1]))
+        cs = calls(fn, ctor)
+        if len(cs) != 1:
+            # a different constructor is used: decidable as wrong only if it is one of the known sibling constructors
+            others = calls(fn, r"InternalValue::(from_components|new_tombstone|new_weak_tombstone)::<")
+            if len(others) == 1:
+                a.glue = [("entry constructor is %s" % ctor, "refuted", 0.0)]
+                a.var("x")
+                a.event("call:WRONG entry constructor", [others[0].idx])
+                a.require("call:WRONG entry constructor", "false", "%s::%s builds its entry with %s instead of %s" % (where, short, others[0].callee[:60], ctor))
+                out.append(a)
+                continue
+            raise MirError("%s: expected exactly one call of %s" % (short, ctor))
+        c = cs[0]
+        args = [x.strip() for x in mir.split_top(c.args)]
+        ok_t = True
+        got = None
+        if ti is not None:
+            got = _vt_of_operand(fn, c, args[ti])
+            if got is None:
+                raise MirError("%s: value type operand %r not resolvable" % (short, args[ti]))
+            ok_t = got == want
+        ok_s = re.match(sre, args[si]) is not None
+        if not ok_s:
+            # moved through a temporary?
+            l = RE_LOCAL.search(args[si])
+            defs = [st for b in live_blocks(fn) for st in b.stmts if l and st.startswith(l.group(0) + " = ")]
+            ok_s = len(defs) == 1 and re.match(sre, defs[0].split(" = ", 1)[1]) is not None
+        a.glue = [("type operand = ValueType::%s (found %s)" % (want, got), "proved" if ok_t else "refuted", 0.0),
+                  ("seqno operand is the caller's / ingestion's seqno", "proved" if ok_s else "refuted", 0.0)]
+        a.var("x")
+        a.event("call:entry built with the WRONG type or seqno", [] if (ok_t and ok_s) else [c.idx])
+        a.require("call:entry built with the WRONG type or seqno", "false",
+                  "%s::%s writes a %s entry (expected %s)%s" % (where, short, got, want, "" if ok_s else " / with a seqno that is not the caller's"))
+        out.append(a)
+    return out
+
+
+SPECS["O13.3"] = [value_type_table]
+
+
+# ---------------------------------------------------------------------------------------------
+# C10 O10.7: no function drops an Err it has looked at (every Err arm re-raises, converts or panics)
+# ---------------------------------------------------------------------------------------------
+
+ERR_T = r"(error::Error|std::io::Error|io::Error|DecodeError|EncodeError|coding::DecodeError|coding::EncodeError)"
+
+SWALLOW_OK = [
+    (r"(^|::)verify_checksum$", "retries the read on ErrorKind::Interrupted (EINTR), every other error is returned"),
+    (r"src/table/inner\.rs[^>]*>::drop$", "Drop cannot return an error: a failing unlink is logged"),
+    (r"src/vlog/blob_file/mod\.rs[^>]*>::drop$", "Drop cannot return an error: a failing unlink is logged"),
+    (r"(^|::)drop_tables$", "version-history GC failing after the drop was published is logged, not reported (repair f7a52f6, C16)"),
+    (r"src/tree/mod\.rs[^>]*>::register_tables$", "version-history GC failing after the flush was published is logged"),
+    (r"src/(blob_)?tree/ingest\.rs[^>]*>::finish$", "version-history GC failing after the ingestion was published is logged"),
+    (r"flavour\.rs[^>]*>::finish$", "version-history GC failing after the compaction was published is logged"),
+    (r"src/vlog/blob_file/multi_writer\.rs[^>]*>::consume_writer$", "unlinking an empty, unreferenced blob file is best effort (logged; orphans are removed on recovery)"),
+]
+
+
+def _place_type(fn, pl):
+    if re.fullmatch(r"_\d+", pl):
+        return fn.locals.get(pl) or ""
+    mm = re.search(r": ([^()]*(?:\([^()]*\)[^()]*)*)\)$", pl)
+    return mm.group(1) if mm else ""
+
+
+def _is_result_t(t):
+    t = t.strip()
+    return re.match(r"^(std::result::)?Result<.*, %s>$" % ERR_T, t) is not None and "Infallible" not in t
+
+
+def _is_cf_t(t):
+    return re.match(r"^(std::ops::)?ControlFlow<(std::result::)?Result<(std::convert::)?Infallible, %s>" % ERR_T, t.strip()) is not None
+
+
+def _pure_cleanup(fn, start, limit=40):
+    """everything reachable from `start` is drop / goto / return / drop-flag bookkeeping"""
+    seen, todo = set(), [start]
+    while todo:
+        i = todo.pop()
+        if i in seen:
+            continue
+        seen.add(i)
+        if len(seen) > limit:
+            return False
+        b = fn.blocks[i]
+        if b.cleanup:
+            continue
+        if b.kind == "call" or b.kind == "assert":
+            return False
+        for st in b.stmts:
+            if not re.match(r"^_\d+ = (const (true|false)|discriminant\(.*\)|copy _\d+|move _\d+)$", st):
+                return False
+        todo.extend(b.succ)
+    return True
+
+
+def no_swallowed_errors(fns):
+    out = []
+    for f in fns:
+        if getattr(f, "skip", False) or "tests::" in f.name or "::tests" in f.name or f.closure_span() and "/tests" in f.closure_span():
+            continue
+        sites = []
+        for b in list(live_blocks(f)):
+            if b.kind != "switch":
+                continue
+            for st in b.stmts:
+                m = re.match(r"^(_\d+) = discriminant\((.*)\)$", st)
+                if not m or m.group(1) not in (b.args or ""):
+                    continue
+                ty = _place_type(f, m.group(2))
+                if not (ty and (_is_result_t(ty) or _is_cf_t(ty))):
+                    continue
+                tg = [t for v, t in b.switch if v == "1"]
+                if not tg:
+                    if not any(v == "0" for v, _ in b.switch):
+                        continue
+                    tg = [t for v, t in b.switch if v == "otherwise"]
+                if not tg or f.blocks[tg[0]].kind == "dead":
+                    continue
+                if all(_pure_cleanup(f, t) for _, t in b.switch if f.blocks[t].kind != "dead"):
+                    continue  # drop elaboration: both arms only run destructors
+                sites.append((b.idx, tg[0], m.group(2)))
+        discards = [b for b in live_blocks(f) if b.kind == "call" and re.search(
+            r"Result::<.*, %s>::(ok|unwrap_or|unwrap_or_default|unwrap_or_else|map_or|map_or_else|or|or_else)$" % ERR_T, b.callee)]
+        if not sites and not discards:
+            continue
+        white = [why for rx, why in SWALLOW_OK if re.search(rx, f.name)]
+        short = f.name.split("::")[-1] if "<impl" not in f.name else re.sub(r"<impl at (src/[^:]+):[^>]*>", r"\1", f.name)
+        a = Automaton(f, "O10.7 %s: no Err arm falls through to a normal return" % short[-70:])
+        edges = [edge_block(f, sw, tgt) for sw, tgt, _ in sites]
+        prop = []
+        for b in live_blocks(f):
+            if any(re.search(r"Result::<.*>::Err\(|ControlFlow::<.*>::Break\(", st) for st in b.stmts):
+                prop.append(b.idx)
+            if b.kind == "call" and re.search(r"from_residual$|panic|unwrap_failed|expect_failed|::expect$|::unwrap$|::expect_err$|::unwrap_err$|::map_err::<", b.callee):
+                prop.append(b.idx)
+        a.var("err").var("prop")
+        a.event("err:Result is Err", [] if white else edges).on("err:Result is Err", "err", True).on("err:Result is Err", "prop", False)
+        a.event("stmt:error re-raised / converted / panic", prop).on("stmt:error re-raised / converted / panic", "prop", True)
+        a.event("ret", [b.idx for b in live_blocks(f) if b.kind == "return"])
+        a.require("ret", "(or (not {err}) {prop})", "an Err result that was inspected is dropped: the function returns normally (corruption / I/O failure is not reported)")
+        dis_white = white or re.search(r"fifo\.rs[^>]*>::choose$", f.name)
+        a.event("call:Result discarded (ok / unwrap_or..)", [] if dis_white else [b.idx for b in discards])
+        a.require("call:Result discarded (ok / unwrap_or..)", "false", "an error result is turned into a default / None")
+        if white:
+            a.glue = [("exempt: %s" % white[0], "proved", 0.0)]
+        out.append(a)
+    if len(out) < 50:
+        raise MirError("no_swallowed_errors: only %d functions with Result switches found (pattern drift?)" % len(out))
+    return out
+
+
+SPECS["O10.7"] = [no_swallowed_errors]
